@@ -23,6 +23,46 @@ inductive EntAct where
   | vacInsert (v : Str)       -- `VacantEntry::insert`
   deriving Repr, DecidableEq
 
+/-- calls on ONE iterator obtained from `iter()` / `iter_mut()` (`Iter` / `IterMut`, qualifiers.rs:636-720:
+`Iterator`, `DoubleEndedIterator`, `ExactSizeIterator`), in any order -/
+inductive ItOp where
+  | next
+  | nextBack
+  | nth (n : Nat)
+  | nthBack (n : Nat)
+  | len
+  deriving Repr, DecidableEq
+
+inductive ItOut where
+  | item (o : Option (Str × Str))
+  | len (n : Nat)
+  deriving Repr, DecidableEq
+
+/-- one call on an iterator whose remaining window is `rem` (a double-ended slice iterator: `nth` /
+`nth_back` that overshoot leave it empty) -/
+def itStep (rem : List (Str × Str)) : ItOp → ItOut × List (Str × Str)
+  | .next =>
+    match rem with
+    | [] => (.item none, [])
+    | x :: xs => (.item (some x), xs)
+  | .nextBack =>
+    match rem.getLast? with
+    | none => (.item none, [])
+    | some x => (.item (some x), rem.dropLast)
+  | .nth n => (.item rem[n]?, rem.drop (n + 1))
+  | .nthBack n =>
+    if n < rem.length then (.item rem[rem.length - 1 - n]?, rem.take (rem.length - 1 - n))
+    else (.item none, [])
+  | .len => (.len rem.length, rem)
+
+/-- a script of calls on one iterator: the answers and what is left in it -/
+def itRun : List (Str × Str) → List ItOp → List ItOut × List (Str × Str)
+  | rem, [] => ([], rem)
+  | rem, op :: ops =>
+    let (o, rem') := itStep rem op
+    let (os, rest) := itRun rem' ops
+    (o :: os, rest)
+
 inductive QOp where
   | insert (k v : Str)
   | get (k : Str)
@@ -40,6 +80,7 @@ inductive QOp where
   | iter
   | riter
   | ends                            -- `next()` / `next_back()` alternately until exhausted
+  | iterScript (mutable : Bool) (ops : List ItOp)  -- any calls on one `iter()` / `iter_mut()`, then the rest collected
   | iterMutAppend (x : Str)
   | rIterMutAppend (x : Str)        -- from the back: append x and the position from the back
   | index (k : Str)
@@ -70,6 +111,7 @@ inductive QOut where
   | entKv (k v : Str)
   | ord (o : Option Ordering)
   | absent                         -- index out of range for eqKey/cmpKey
+  | itOuts (os : List ItOut) (rest : List (Str × Str))
   deriving Repr, DecidableEq
 
 def natToStr (n : Nat) : Str := (toString n).toList
@@ -179,6 +221,7 @@ def Quals.step (U : UnicodeOps) (q : Quals) : QOp → Res PErr (QOut × Quals)
   | .iter => .ok (.pairs q, q)
   | .riter => .ok (.pairs q.reverse, q)
   | .ends => .ok (.pairs (endsAux q.length q), q)
+  | .iterScript _ ops => .ok (.itOuts (itRun q ops).1 (itRun q ops).2, q)
   | .iterMutAppend x => .ok (.count q.length, q.map fun kv => (kv.1, kv.2 ++ x))
   | .rIterMutAppend x => .ok (.unit, rIterAppend x q)
   | .index k =>
